@@ -82,7 +82,18 @@ def c18():
     return S
 
 
-SCEN = {"C09": c09, "C18": c18}
+def c19():
+    """both builds must behave identically for every sub-denom the validators accept, whatever the chain's
+    token-factory module then says (it refuses sub-denoms longer than 44 characters)"""
+    S = []
+    subs = ["stTIA", "abcd", "a" * 43, "b" * 44, "c" * 45, "d" * 54]
+    for run, sub in enumerate(subs, start=1):
+        S += [inst(run, sub=sub), resume(), faucet("u1", 500), stake("u1", 100), ack(1), rewards(30), stake("u1", 50, mint_to="n:u1"),
+              unstake("u1", 60), dt(100), submit(), unstake("u1", 40), dt(100), submit()]
+    return S
+
+
+SCEN = {"C09": c09, "C18": c18, "C19": c19}
 
 if __name__ == "__main__":
     os.makedirs(OUT, exist_ok=True)
